@@ -587,6 +587,13 @@ def rules(chk: Check) -> None:
     chk.floor("R08.2", 4)
     chk.floor("R08.3", 7)
     chk.floor("R08.4", 2)
+    # R08.6: widths and relative offsets are clipped and bounded each with bounds of their own kind (C07's dimension inference restricted to the wall-parameter
+    # code): a positive-only thickness bound applied to a relative offset, whose sign depends on which field is labelled first, singles out one labelling
+    from . import c07
+    from ..core import Remap as _Remap
+    chk.stage(c07.rules, _Remap(chk, {"R07.1": "R08.6"}, only=lambda r, k, w: any(f in str(w) for f in ("EOM._intermediatePressureResults", "EOM.action", "EOM.wallProfile", "EOM._toWallParams",
+                                                                                                   "EOM.solveWall", "EOM.wallPressure"))))
+    chk.floor("R08.6", 3)
 
 
 def extra(chk: Check) -> dict:
